@@ -17,7 +17,7 @@ RULE = (
     "Hypothesis draws a result value from the documented domain (None, bool, int incl. > 2^64, float incl. NaN/inf/-0.0, str incl. non-ASCII/empty/large, "
     "bytes, date, datetime naive/aware, pd.Timestamp, lists and str-keyed dicts nesting these to depth 3, 1-d numpy arrays of the 7 supported dtypes incl. empty, "
     "pd.Index/Series/DataFrame incl. empty and indexed, InMemoryPartition/OnDiskPartition of such values) or an exception from a catalogue (builtin, importable custom "
-    "with message constructor, two required args, no-arg constructor, function-local class, classes nested one and two levels inside another class with a same-named top-level decoy, NonMemoizedException subclass) x backend {filesystem, filesystem+cache 256 B..16 MiB (so that weak-referenceable results oversize for the cache occur), memory} "
+    "with message constructor, two required args, no-arg constructor, function-local class, classes nested one and two levels inside another class with a same-named top-level decoy, a class in a module that only the body imports (replayed in another process in which that module is not loaded), NonMemoizedException subclass) x backend {filesystem, filesystem+cache 256 B..16 MiB (so that weak-referenceable results oversize for the cache occur), memory} "
     "x modifier {plain, ignore_result, force_local}. A table-driven memento function returns/raises it. Oracle: call 1 runs the body exactly once and returns the object; "
     "calls 2-3 and a call after reopening the store run nothing and return a typed-equal value (same ResultType for partitions); memento().result_type == ResultType.from_object(value read back); "
     "the object returned by call 1 is still fully usable; exceptions replay as the same class when Class(message) can be built else MementoException, original message contained; "
@@ -117,7 +117,29 @@ def _equal(a, b):
     return values.typed_equal(a, b)
 
 
+def _replay_in_child(k, modifier):
+    """forked child: forget that the lazily imported exception module was ever loaded, then make the (memoized) call"""
+    import sys
+    import vlib
+    sys.modules.pop("vlib.lazyerrs", None)
+    if hasattr(vlib, "lazyerrs"):
+        delattr(vlib, "lazyerrs")
+    rt.take()
+    fn = tfuncs.val.ignore_result() if modifier == "ignore_result" else (tfuncs.val.force_local() if modifier == "force_local" else tfuncs.val)
+    try:
+        v = fn(k)
+        res = {"kind": "ok", "value": repr(v)[:100]}
+    except Exception as e:
+        res = {"kind": "exc", "module": type(e).__module__, "qualname": type(e).__qualname__, "msg": str(e)[:200]}
+    res["runs"] = len([r for r in rt.take() if r[0] == "val"])
+    return res
+
+
+labels_extra = []
+
+
 def execute(case, scratch):
+    del labels_extra[:]
     out = core.Outcome()
     d = env.fresh_dir(scratch, "c02-")
     try:
@@ -175,6 +197,19 @@ def execute(case, scratch):
             if len(runs) != expect_runs:
                 out.violation("call after reopen ran the body %d times" % len(runs), symptom="runs", call="reopen")
             _check_result(out, case, spec, reference, kind, res, "after reopen", results[0])
+        # a memoized exception replayed in another process, in which the module defining its class is not loaded yet
+        if is_exc and spec["exc"] != "NotMemoized" and not out.violations:
+            from vlib import proc
+            r = proc.forkrun(_replay_in_child, k, case["modifier"])
+            want_mod = {"LazyErr": "vlib.lazyerrs"}.get(spec["exc"])
+            if r["runs"]:
+                out.violation("replay in another process ran the body %d times" % r["runs"], symptom="runs", call="other-process")
+            if r.get("kind") != "exc":
+                out.violation("replay in another process returned %r instead of raising" % (r.get("value"),), symptom="exception-not-raised")
+            elif want_mod and (r["module"], r["qualname"]) != (want_mod, spec["exc"]):
+                out.violation("replay in a process that had not imported %s raised %s.%s for a recorded %s (its class can be rebuilt from its message)" % (
+                    want_mod, r["module"], r["qualname"], spec["exc"]), symptom="exception-class", exc=spec["exc"], where="other-process")
+            labels_extra.append("exception-replayed-in-another-process")
         # recorded result type matches the value read back
         try:
             mem = fn.memento(k)
@@ -271,7 +306,9 @@ def _check_result(out, case, spec, reference, kind, res, which, first):
         if name == "TwoArgErr":
             msg = spec["msg"] + "/second"
         first_call = which == 1
-        if name in tfuncs.REBUILDABLE and name not in ("ValueError", "KeyError", "ZeroDivisionError"):
+        if name == "LazyErr":
+            ok_class = type(res).__module__ == "vlib.lazyerrs" and type(res).__qualname__ == "LazyErr"
+        elif name in tfuncs.REBUILDABLE and name not in ("ValueError", "KeyError", "ZeroDivisionError"):
             ok_class = type(res) is tfuncs.REBUILDABLE[name]
         elif first_call or name == "NotMemoized":
             ok_class = type(res).__name__ == name
@@ -315,7 +352,7 @@ def _fin(out, case):
     else:
         shape = _shape(spec)
         out.nontrivial = not (isinstance(shape, str) and shape in ("int", "str:s", "bool", "float:n", "none"))
-    out.labels = ["backend:" + case["backend"], "mod:" + case["modifier"],
+    out.labels = list(labels_extra) + ["backend:" + case["backend"], "mod:" + case["modifier"],
                   "shape:" + (shape.split(":")[0] + (":empty" if shape.endswith(":empty") else "") if isinstance(shape, str) and not shape.startswith(("exc", "float")) else (shape if isinstance(shape, str) else shape[0]))]
     out.nt_key = [shape, case["backend"], case["modifier"]]
     return out
@@ -330,7 +367,7 @@ def strategy():
     S = values.strategies()
     msg = st.text(alphabet="abcdefghij XYZ0123456789.,:;-_()é", min_size=0, max_size=20)
     exc = st.builds(lambda k, mm: {"exc": k, "msg": mm},
-                    st.sampled_from(["ValueError", "KeyError", "ZeroDivisionError", "CustomErr", "TwoArgErr", "NoArgErr", "LocalErr", "NotMemoized", "NestedErr", "DeepErr"]), msg)
+                    st.sampled_from(["ValueError", "KeyError", "ZeroDivisionError", "CustomErr", "TwoArgErr", "NoArgErr", "LocalErr", "NotMemoized", "NestedErr", "DeepErr", "LazyErr"]), msg)
     big = st.sampled_from([{"t": "str", "n": 3000, "c": "b"}, {"t": "bytes", "n": 5000, "c": "ab"},
                            {"t": "nd", "dtype": "int64", "v": list(range(60))}, {"t": "nd", "dtype": "float64", "v": [float(i) for i in range(700)]},
                            {"t": "nd", "dtype": "int8", "v": [i % 100 for i in range(2500)]}])
